@@ -5,7 +5,7 @@ import json, os, subprocess, sys, time, hashlib, shutil
 VERIF = os.path.dirname(os.path.dirname(os.path.abspath(__file__)))
 REPO = os.environ.get('VERIF_REPO', '/repo')
 BUILD = os.path.join(VERIF, 'build')
-EVID = os.path.join(VERIF, 'evidence')
+EVID = os.environ.get('VERIF_EVIDENCE_DIR') or os.path.join(VERIF, 'evidence')   # seed-matrix runs write elsewhere
 REPLAYS = os.path.join(VERIF, 'replays')
 NIGHTLY = 'nightly'
 
